@@ -50,9 +50,9 @@ var props = map[string]propSpec{
 	"C09": ps("agreement with a reference maximal-munch lexer on all strings; the regular languages of the literal patterns", "LEX", "LEX-8", "SORTLESS-2", "EFFECT-2"),
 	"C10": ps("the semantic half (same value or fail alike) beyond operand order and callee; it follows from C03/C05 for the explicit call", "DS", "DS-7", "SIBLING-4", "LEX-8"),
 	"C11": ps("nothing is executed: the stack-effect walk is an induction over the compiler source (trusted: the walker's model of the six emitter functions)", "BC-1", "BC-2", "BC-3", "BC-5", "BC-6", "BC-7", "SIBLING-2", "EFFECT-2"),
-	"C12": ps("termination / polynomial time in general (only the backtracking structure is decided); unrecoverable Go failures (stack exhaustion, OOM, concurrent map write)", "PANIC-1", "PARSE-8", "CONV", "BC-2", "BC-3", "DS-7", "TRAVERSE-1"),
+	"C12": ps("termination / polynomial time in general (only the backtracking structure is decided); unrecoverable Go failures (stack exhaustion, OOM, concurrent map write)", "PANIC-1", "PARSE-8", "CONV", "BC-2", "BC-3", "DS-7", "TRAVERSE-1", "PAIR-2"),
 	"C13": ps("time literals relative to now; user-registered functions", "EFFECT-1", "EFFECT-2", "EFFECT-3", "EFFECT-4", "EFFECT-5", "EFFECT-6", "EFFECT-7", "ENGINE", "MAPORDER-1", "MAPORDER-2", "PAIR-1", "SORTLESS-1", "SIBLING-9", "ENVCHK", "IDENT-2", "DS~DS-2"),
-	"C14": ps("schedules as such (nothing is executed); cgo state inside timelib beyond the mutex-guarded Go cache; callers sharing one *val.Env between goroutines while mutating it", "EFFECT-2", "EFFECT-5", "EFFECT-6", "EFFECT-7", "ENGINE", "EFFECT-3"),
+	"C14": ps("schedules as such (nothing is executed); cgo state inside timelib beyond the mutex-guarded Go cache; callers sharing one *val.Env between goroutines while mutating it", "EFFECT-2", "EFFECT-5", "EFFECT-6", "EFFECT-7", "ENGINE", "EFFECT-3", "PAIR-2"),
 	"C15": ps("equality of contents with the original Go value and numeric faithfulness (run-time values)", "CONV", "PANIC-1", "EQ-FIELDS", "IDENT-2"),
 	"C16": ps("the universal 'every such program is rejected' as a statement over programs; only the structural reasons it holds are decided", "CONV", "EQ-FIELDS", "UN-1", "TC", "SIBLING-2", "ENVCHK", "TOTAL-1", "SIG-1"),
 	"C17": ps("the algebraic laws (most general unifier, agreement with a reference matcher) quantify over pairs of types and need enumeration or proof", "EQ-FIELDS", "UN-1", "KINDSW"),
